@@ -159,10 +159,10 @@ func (ac *affCtx) transparentLoops(call *ssa.Call, allowLoops bool) (*ssa.Functi
 	if strings.HasSuffix(callee.Name(), "$bound") {
 		return nil, false
 	}
-	if callee.Pkg == nil || ac.fn.Pkg == nil || callee.Pkg != ac.fn.Pkg {
+	if cp, fp := pkgOfFunc(callee), pkgOfFunc(ac.fn); cp == nil || fp == nil || cp != fp {
 		return nil, false
 	}
-	if obj := callee.Object(); obj == nil || obj.Exported() {
+	if obj := objOfFunc(callee); obj == nil || obj.Exported() {
 		return nil, false
 	}
 	if wireVocabulary()[fname(callee)] {
@@ -436,7 +436,7 @@ func (ac *affCtx) describe(v ssa.Value) string {
 		}
 		name := calleeName(&x.Call)
 		if name == "" {
-			name = "call:" + ac.describe(x.Call.Value)
+			name, args = renderFuncValueCall(ac.describe(x.Call.Value), args)
 		}
 		return name + "(" + strings.Join(args, ",") + ")"
 	case *ssa.BinOp:
@@ -468,6 +468,10 @@ func (ac *affCtx) describe(v ssa.Value) string {
 		}
 		return "phi<" + short(types.TypeString(x.Type(), nil)) + ">"
 	case *ssa.MakeClosure:
+		// a method value: the method and the receiver it is bound to
+		if f := x.Fn.(*ssa.Function); strings.HasSuffix(f.Name(), "$bound") && len(x.Bindings) == 1 {
+			return "bound:" + fname(unbound(f)) + "(" + ac.describe(x.Bindings[0]) + ")"
+		}
 		return "closure:" + fname(x.Fn.(*ssa.Function))
 	case *ssa.Slice:
 		return ac.describe(x.X) + "[:]"
@@ -547,4 +551,18 @@ func (ac *affCtx) freeVarBinding(fv *ssa.FreeVar) (string, bool) {
 	}
 	pc := &affCtx{c: ac.c, fn: parent, alias: map[ssa.Value]string{}, depth: ac.depth + 1}
 	return pc.describe(bound), true
+}
+
+
+// renderFuncValueCall: a call through a function value; when the value is a method value "bound:T.m(recv)" the call is
+// rendered like the static call T.m(recv, args...), so that passing a method to a helper reads like calling it.
+func renderFuncValueCall(fv string, args []string) (string, []string) {
+	if strings.HasPrefix(fv, "bound:") && strings.HasSuffix(fv, ")") {
+		body := strings.TrimPrefix(fv, "bound:")
+		if i := strings.Index(body, "("); i > 0 {
+			recv := body[i+1 : len(body)-1]
+			return body[:i], append([]string{recv}, args...)
+		}
+	}
+	return "call:" + fv, args
 }
